@@ -1,6 +1,7 @@
 /- judge for the adversary stream (C17): allocator-oracle verdicts on the implementation's own run, and
 lock-step comparison of the outcome with the M6 model for the consumers it covers. -/
 import BytesVerif.Model.Adv
+import BytesVerif.Model.AdvGen
 import BytesVerif.Judge.Util
 namespace BytesVerif.Judge.AdvJ
 open BytesVerif.Adv BytesVerif.Judge
@@ -75,6 +76,44 @@ def predict (name : String) (sc : List Lie) (arg : Nat) : Option (Res String) :=
   | "chain_get_u64" => r (chainGetFixed fuel [97, 98] b 8) fun bs => s!"v_{beVal bs}"
   | _ => none
 
+def iterCountG : Nat → AdvGen.GAdv → Nat → Res Nat
+  | 0, _, _ => .hang
+  | f + 1, b, n =>
+    match AdvGen.iterNext b with
+    | .ok (none, _) => .ok n
+    | .ok (some _, b') => if n + 1 > 10000 then .ok (n + 1) else iterCountG f b' (n + 1)
+    | .panic => .panic
+    | .ub w => .ub w
+    | .hang => .hang
+
+/-- the prediction of the general model (Model/AdvGen.lean: answers may change on every call) instantiated with the harness's
+scripted adversary (`ofScript`: answers change on `advance` only); same rendering as `predict` -/
+def predictGen (name : String) (sc : List Lie) (arg : Nat) : Option (Res String) :=
+  let b : AdvGen.GAdv := AdvGen.ofScript sc backing
+  let r {α : Type} (x : Res α) (f : α → String) : Option (Res String) := some (x.bind fun a => .ok (f a))
+  match name with
+  | "copy_to_slice" => r (AdvGen.copyToSlice fuel b arg) fun q => "ok_" ++ toHex (q.1.take 8)
+  | "try_copy_to_slice" => r (AdvGen.tryCopyToSlice fuel b arg) fun q => if q.1.isSome then "true" else "false"
+  | "get_u32" => some ((AdvGen.tryGetFixed fuel b 4).bind fun q => match q.1 with | some bs => .ok s!"v_{beVal bs}" | none => .panic)
+  | "get_u64_le" => some ((AdvGen.tryGetFixed fuel b 8).bind fun q => match q.1 with | some bs => .ok s!"v_{leVal bs}" | none => .panic)
+  | "get_uint" => some ((AdvGen.tryGetVar fuel b (arg % 9)).bind fun q => match q.1 with | some bs => .ok s!"v_{beVal bs}" | none => .panic)
+  | "try_get_i128" => r (AdvGen.tryGetFixed fuel b 16) fun q => if q.1.isSome then "Some" else "None"
+  | "get_u8" => r (AdvGen.getU8 b) fun q => s!"v_{q.1}"
+  | "bytesmut_put" => r (AdvGen.putGrowLoop fuel b 0 arg) fun q => s!"len_{q.1}"
+  | "vec_put" => r (AdvGen.vecPut fuel b 0 arg) fun q => s!"len_{q.1}"
+  | "slice_put" => r (AdvGen.putFixed fuel b arg) fun q => s!"rem_{q.2}"
+  | "into_iter" => r (iterCountG fuel b 0) fun n => s!"n_{n}"
+  | "reader_read" => some ((AdvGen.remaining b).bind fun rm => (AdvGen.copyToSlice fuel rm.2 (min rm.1 arg)).bind fun _ => .ok s!"Some({min rm.1 arg})")
+  | "take_chunks_vectored" => r (AdvGen.takeChunksVectored b arg 4) fun l => s!"n_{l.length}"
+  | "copy_to_bytes" => r (AdvGen.defaultCopyToBytes fuel b arg) fun n => s!"len_{n}"
+  | "take_copy_to_bytes" => r (AdvGen.takeCopyToBytes fuel b (arg + 3) arg) fun n => s!"len_{n}"
+  | "chain_copy_to_bytes" => r (AdvGen.chainCopyToBytes fuel b 3 arg) fun n => s!"len_{n}"
+  | "chain_chunks_vectored" => r (AdvGen.chainChunksVectored b 3) fun n => s!"n_{n}"
+  | "split_bytesmut_put" => r (AdvGen.putGrowLoop fuel b 0 64) fun q => s!"len_{q.1}"
+  | "limit_put" => r (AdvGen.putLimit fuel b arg 0 8) fun q => s!"len_{q.1}"
+  | "chain_get_u64" => r (AdvGen.chainGetFixed fuel [97, 98] b 8) fun bs => s!"v_{beVal bs}"
+  | _ => none
+
 def kvOf (ws : List String) (k : String) : Option String :=
   (ws.find? (·.startsWith (k ++ "="))).map fun w => (w.drop (k.length + 1)).toString
 
@@ -132,7 +171,16 @@ def step (s : JS) (line : String) : IO JS := do
           -- `Some(..)` of try_get_i128: only the constructor is compared
           let implShown := if name == "try_get_i128" then (if outcome.startsWith "Some" then "Some" else outcome) else outcome
           if shown != implShown then emit s false s!"model-diff ADV consumer={name} impl={implShown} model={shown} case={caseS}"
-          else return s
+          else
+            -- the general model (answers may change on every call), instantiated with this script, must agree as well
+            let shownG := match predictGen name script a with
+              | some (.ok v) => v
+              | some .panic => "panic"
+              | some .hang => "panic"
+              | some (.ub w) => "UB:" ++ w.replace " " "_"
+              | none => "unmodelled"
+            if shownG != implShown then emit s false s!"model-diff ADVGEN consumer={name} impl={implShown} model={shownG} case={caseS}"
+            else return s
       | _, _ => emit s false s!"bad-trace ADV {line.trimAscii}"
     | _ => return s
   | "advowner" :: ws =>
